@@ -51,7 +51,7 @@ def index_dispatch(res, tier):
                 res.undecided.append('%s: solver answered %s' % (key, ans)); continue
             m = re.search(r'#x([0-9a-fA-F]{8})', o); idx = int(m.group(1), 16) if m else None
             # replay on the real code
-            rb = os.path.join(wd, 'gen_replay')
+            rb = os.path.join(wd, 'gen_replay_' + build.tree_hash())
             if not os.path.exists(rb):
                 subprocess.run(['g++', '-std=c++11', '-O1', '-w', '-I' + os.path.join(build.REPO, 'include'), '-I' + os.path.join(build.REPO, 'external/tl'), '-isystem', '/usr/include/eigen3', os.path.join(build.VERIF, 'harness/c14/gen_replay.cpp'), '-o', rb], capture_output=True)
             sidx = idx - (1 << 32) if idx is not None and idx >= (1 << 31) else idx
